@@ -32,6 +32,18 @@ def _is_escape_chain(t):
 SAFE_FUNCS = {'urllib.quote', 'urllib.quote_plus'}     # library fact (assumed): '<' is always percent-encoded
 
 
+def _escape_depth(t):
+    """maximal nesting of escape(...) chains in a term"""
+    if not z3.is_app(t):
+        return 0
+    if _is_escape_chain(t):
+        cur = t
+        for _ in range(5):
+            cur = cur.arg(0)
+        return 1 + _escape_depth(cur)
+    return max([_escape_depth(c) for c in t.children()] or [0])
+
+
 def _structurally_safe(E, t):
     if z3.is_string_value(t):
         return True
@@ -177,16 +189,29 @@ def _render_exit(E, outcome, value, env, prefix):
              detail="the text inserted for a tainted value contains no '<' stemming from the raw value (it went through quoted() "
                     "exactly at the end, or through an escaping / sanitising stage)")
     q = [t for t in E.trace if t[0] == 'quoted']
-    E.oblige('%s::C04.escaped_at_most_once' % prefix, bool(len(q) <= 1), kind='post', detail='escaping is applied once, not twice')
+    depth = _escape_depth(value.t) if isinstance(value, VS) else 0
+    E.oblige('%s::C04.escaped_at_most_once' % prefix, bool(len(q) <= 1 and depth <= 1), kind='post',
+             detail='escaping is applied once, not twice (quoted() calls: %d, nesting depth of escape(...) in the result: %d)' % (len(q), depth))
 
 
 RENDER = []
 for _tag, _args, _nm, _cf in (('plain', {'': 'x'}, 0, 's'), ('mods2', {'': 'x'}, 2, 's'), ('size', {'': 'x', 'size': VI(z3.Int('size')), 'etc': '...'}, 1, 's'),
                               ('null', {'': 'x', 'null': 'NULL'}, 1, 's'), ('cformat', {'': 'x'}, 1, '10s'),
                               ('fmt.percent', {'': 'x', 'fmt': '%s!'}, 0, 's'), ('fmt.html-quote', {'': 'x', 'fmt': 'html-quote'}, 0, 's'),
-                              ('fmt.empty', {'': 'x', 'fmt': ''}, 0, 's')):
+                              ('fmt.empty', {'': 'x', 'fmt': ''}, 0, 's'),
+                              ('fmt.method.casefold', {'': 'x', 'fmt': 'casefold'}, 0, 's'), ('fmt.method.__str__', {'': 'x', 'fmt': '__str__'}, 0, 's'),
+                              ('fmt.method.lower', {'': 'x', 'fmt': 'lower'}, 1, 's')):
+    def _pre(E, env, _a=_args, _n=_nm, _c=_cf, _t=_tag):
+        _render_state(_a, _n, fmt=_c, str_mods=_tp_modifier_call)(E, env)
+        if _t.startswith('fmt.method'):
+            # method formats: the guard-less namespace (with a guard the method is fetched by an opaque callable; that
+            # the fetch goes through the guard is C05)
+            dct = E.heap[E.heap[env.locals['md'].addr].fields['_dict'].addr]
+            for e in dct.entries:
+                if e[0].v == 'guarded_getattr':
+                    e[1] = NONE
     contract(VAR + '.render', variant='C04.' + _tag, params=dict(self=NoneV(), md=TD()),
-             pre_hook=_render_state(_args, _nm, fmt=_cf, str_mods=_tp_modifier_call), exit_hook=_render_exit,
+             pre_hook=_pre, exit_hook=_render_exit,
              uses=[GI + '#tainted', HAS, 'DocumentTemplate.ustr.ustr#bytes_or_str'])
     RENDER.append(VAR + '.render#C04.' + _tag)
 
@@ -208,3 +233,21 @@ for _names in (('url_quote', 'url_unquote'), ('url_quote_plus', 'url_unquote_plu
              uses=[GI + '#tainted', HAS, 'DocumentTemplate.ustr.ustr#bytes_or_str'],
              invariants={})
     COMPOSE.append(VAR + '.render#' + _tag)
+
+
+def _fmt_mod_state(fmt, names):
+    def hook(E, env):
+        _render_state({'': 'x', 'fmt': fmt}, 0)(E, env)
+        me = E.heap[env.locals['self'].addr]
+        me.fields['modifiers'] = VT([E.lookup_qual('DocumentTemplate.html_quote.html_quote' if n == 'html_quote' else DV + '.' + n) for n in names])
+        dct = E.heap[E.heap[env.locals['md'].addr].fields['_dict'].addr]
+        for e in dct.entries:
+            if e[0].v == 'guarded_getattr':
+                e[1] = NONE
+    return hook
+
+
+contract(VAR + '.render', variant='C04.fmt.multi-line.html_quote', params=dict(self=NoneV(), md=TD()),
+         pre_hook=_fmt_mod_state('multi-line', ['html_quote']), exit_hook=_render_exit,
+         uses=[GI + '#tainted', HAS, 'DocumentTemplate.ustr.ustr#bytes_or_str'])
+COMPOSE.append(VAR + '.render#C04.fmt.multi-line.html_quote')
